@@ -9,41 +9,62 @@ QTO = "pint.facets.plain.qto"
 _mods = ["contents(self._REGISTRY._cache.dimensionality)", "contents(self._REGISTRY._cache.root_units)",
          "contents(self._REGISTRY._cache.conversion_factor)", "allof(UnitsContainer._hash)"]
 
+_other_ok = ("wf(other) and names_ok(other) and exact_class(other, 'UnitsContainer') and dims_ok(other, self._REGISTRY) "
+             "and AllMult(self._REGISTRY, other) and FacOf(other, 1) > 0")
+_to_exc = ("UndefinedUnitError", "OffsetUnitCalculusError", "KeyError", "TypeError", "ArithmeticError")
+
 contract(f"{Q}.to",
          params={"self": "Ref[PlainQuantity]", "other": "Ref[UnitsContainer]", "contexts": "Seq[Str]", "ctx_kwargs": "None"},
          returns="Ref[PlainQuantity]",
          requires={"q": "QWF(self)", "noctx": "len(contexts) == 0"},
          cases=[
-             {"_name": "uc", "other": "Ref[UnitsContainer]",
-              "_requires": ["wf(other) and names_ok(other) and exact_class(other, 'UnitsContainer') and dims_ok(other, self._REGISTRY) "
-                            "and AllMult(self._REGISTRY, other) and FacOf(other, 1) > 0"],
-              "_raises": {"DimensionalityError": "exists[Str](lambda b: b != '[]' and DimOf(b, self._units) != DimOf(b, other))"}},
+             {"_name": "uc", "other": "Ref[UnitsContainer]", "_requires": [_other_ok],
+              "_raises": {"DimensionalityError": "exists[Str](lambda b: b != '[]' and DimOf(b, self._units) != DimOf(b, other))"},
+              "_add_ensures": {"units": "result._units == other"}},
              {"_name": "empty_dict", "other": "Opaque",
               "_raises": {"DimensionalityError": "exists[Str](lambda b: b != '[]' and DimOf(b, self._units) != 0)"}},
          ],
+         allow_exc=_to_exc,
          ensures={"fresh": "fresh(result) and result != self", "registry": "result._REGISTRY == self._REGISTRY",
                   "same_value": "Phys(result) == Phys(self)", "same_dim": "SameDim(result, self)",
-                  "q": "QWF(self) and QWF(result)", "hashes": "HashesKept()",
+                  "q_self": "QWF(self)", "q": "QWF(result)", "hashes": "HashesKept()",
                   "self_untouched": "self._magnitude == old(self._magnitude) and self._units == old(self._units)"},
-         modifies=_mods, trusted=True,
-         note="to_units_container + registry.convert (-> _convert, verified) + the Quantity constructor (not modelled)",
+         modifies=_mods,
+         theories=("lin", "fac", "facdiff"),
+         chain=("fresh", "registry", "units", "same_value", "same_dim"),
+         note="to_units_container (identity on a UnitsContainer) + _convert_magnitude_not_inplace (verified) + the Quantity "
+              "constructor (assumed: stores magnitude and units)",
          props=["C15", "C01", "C02"])
+
+contract(f"{Q}._convert_magnitude",
+         params={"self": "Ref[PlainQuantity]", "other": "Ref[UnitsContainer]", "contexts": "Seq[Str]", "ctx_kwargs": "None"},
+         returns="Num",
+         requires={"q": "QWF(self)", "other": _other_ok, "noctx": "len(contexts) == 0"},
+         raises={"DimensionalityError": "exists[Str](lambda b: b != '[]' and DimOf(b, self._units) != DimOf(b, other))"},
+         allow_exc=_to_exc,
+         ensures={"value_scaled": "result * FacOf(other, 1) == self._magnitude * FacOf(self._units, 1)",
+                  "q": "QWF(self)", "reg": "RegAll(self._REGISTRY)", "hashes": "HashesKept()"},
+         modifies=_mods, theories=("lin", "fac", "facdiff"),
+         note="scalar magnitudes: inplace=False", props=["C15"])
 
 contract(f"{Q}.ito",
          params={"self": "Ref[PlainQuantity]", "other": "Ref[UnitsContainer]", "contexts": "Seq[Str]", "ctx_kwargs": "None"},
          returns="None",
          requires={"q": "QWF(self)", "noctx": "len(contexts) == 0"},
          cases=[
-             {"_name": "uc", "other": "Ref[UnitsContainer]",
-              "_requires": ["wf(other) and names_ok(other) and exact_class(other, 'UnitsContainer') and dims_ok(other, self._REGISTRY) "
-                            "and AllMult(self._REGISTRY, other) and FacOf(other, 1) > 0"],
-              "_raises": {"DimensionalityError": "exists[Str](lambda b: b != '[]' and DimOf(b, self._units) != DimOf(b, other))"}},
+             {"_name": "uc", "other": "Ref[UnitsContainer]", "_requires": [_other_ok],
+              "_raises": {"DimensionalityError": "exists[Str](lambda b: b != '[]' and DimOf(b, self._units) != DimOf(b, other))"},
+              "_add_ensures": {"units": "self._units == other"}},
              {"_name": "empty_dict", "other": "Opaque",
               "_raises": {"DimensionalityError": "exists[Str](lambda b: b != '[]' and DimOf(b, self._units) != 0)"}},
          ],
-         ensures={"same_value": "Phys(self) == old(Phys(self))", "q": "QWF(self)", "hashes": "HashesKept()"},
-         modifies=_mods + ["self._magnitude", "self._units", "self._dimensionality"], trusted=True,
-         note="in-place twin of to()", props=["C15"])
+         allow_exc=_to_exc,
+         ensures={"same_value": "Phys(self) == old(Phys(self))",
+                  "q": "QWF(self)", "hashes": "HashesKept()"},
+         modifies=_mods + ["self._magnitude", "self._units"],
+         theories=("lin", "fac", "facdiff"),
+         note="in-place twin of to(); the per-object dimensionality memo stays valid because the dimensionality does not change",
+         props=["C15"])
 
 contract(f"{Q}.dimensionless", params={"self": "Ref[PlainQuantity]"}, returns="Bool",
          requires={"q": "QWF(self)"},
@@ -67,7 +88,7 @@ contract(f"{QTO}:_get_reduced_units",
 contract(f"{QTO}:to_reduced_units",
          params={"quantity": "Ref[PlainQuantity]"}, returns="Ref[PlainQuantity]",
          requires={"q": "QWF(quantity)"},
-         allow_exc=("DimensionalityError",),
+         allow_exc=("DimensionalityError",) + _to_exc,
          ensures={"same_value": "Phys(result) == Phys(quantity)", "same_dim": "SameDim(result, quantity)",
                   "input_untouched": "quantity._magnitude == old(quantity._magnitude) and quantity._units == old(quantity._units)"},
          modifies=["contents(quantity._REGISTRY._cache.dimensionality)", "contents(quantity._REGISTRY._cache.root_units)",
@@ -78,7 +99,7 @@ contract(f"{QTO}:to_reduced_units",
 contract(f"{QTO}:ito_reduced_units",
          params={"quantity": "Ref[PlainQuantity]"}, returns="None",
          requires={"q": "QWF(quantity)"},
-         allow_exc=("DimensionalityError",),
+         allow_exc=("DimensionalityError",) + _to_exc,
          ensures={"same_value": "Phys(quantity) == old(Phys(quantity))"},
          modifies=["contents(quantity._REGISTRY._cache.dimensionality)", "contents(quantity._REGISTRY._cache.root_units)",
                    "contents(quantity._REGISTRY._cache.conversion_factor)", "allof(UnitsContainer._hash)",
